@@ -10,7 +10,7 @@ MANIFEST = {
     'technique': 'bounded exhaustive enumeration of operator x operand-kind cross-product on the real code vs reference semantics',
     'text': 'Every one of the 12 binary and 3 unary operators is executed on the complete cross-product of a fixed operand pool '
             '(28 values quick / 77 thorough, covering every kind the statement names) in literal and cell spelling and compared '
-            'with an independent reference; exhaustive within the pool, nothing sampled.',
+            'with an independent reference; exhaustive within the pool, nothing sampled.' ' Later additions: unary operators nested in binary ones over the whole pool; every single + - * / and percent result compared exactly (bit for bit), ^ with a relative tolerance; a percent sweep; operand pairs with one side a reference and the other a literal; texts only Python reads as numbers (inf, nan, 1_000, 1e999) must not be numeric.',
     'note': 'Trusted: ref/scalar.py + ref/values.py (my reading of Excel, multi-answer where open); values outside the pool are not decided.',
 }
 RULE = ('every (operator, left operand, right operand, spelling) over the fixed value pool; '
